@@ -104,7 +104,20 @@ def variables(check, key):
         defs = definitions(ctx, W)
         construct = "%s[%s]" % (cls.qualname, name)
         if name not in defs:
-            check.undecided("VAR-REG", construct, "UNCLASSIFIED: registered variable %r has no definition in the checker's table" % name, f.loc())
+            # a variable the statement does not name (added since): there is no definition to compare it with; the
+            # generic clauses are decided -- evaluable one value (or vector) per cell, covariant, argument unchanged (VAR-PURE)
+            try:
+                q = ctx.prim2cons(W)
+                ctx.interp.ev.noncovariant.clear()
+                val = ctx.call(f, q)
+            except AnalysisError as e:
+                check.undecided("VAR-DEF", construct, "analysis error: %s" % e, f.loc())
+                continue
+            if ctx.interp.ev.noncovariant:
+                ln, what = ctx.interp.ev.noncovariant[0]
+                check.violation("VAR-RANK", construct, "non-covariant vector operation (%s at line %d)" % (what, ln), f.loc(), key="noncov")
+            else:
+                check.ok("VAR-REG", construct, "variable not named by the statement: point-wise, covariant expression of the state (%s)" % ("vector" if isinstance(val, Vec) else "one value per cell"), f.loc(), nontrivial=False)
             continue
         try:
             q = ctx.prim2cons(W)
